@@ -18,9 +18,12 @@ type cacheFunctions[MetadataT any] struct {
 	cacheIterator iter.Seq2[CacheKey, *EntryMetadata[MetadataT]]
 	removeEntry   func(key CacheKey) error
 	isExpired     func(key CacheKey) bool // must be called with the key's lock held
-	getCacheSize  func() int64
-	getCacheLen   func() int
-	getLock       func(key CacheKey) *sync.RWMutex
+	// When the entry now stored under the key was last used; false when there is none.
+	// Must be called with the key's lock held.
+	lastAccess   func(key CacheKey) (time.Time, bool)
+	getCacheSize func() int64
+	getCacheLen  func() int
+	getLock      func(key CacheKey) *sync.RWMutex
 }
 
 type cacheJanitor[MetadataT any] struct {
@@ -206,6 +209,13 @@ func (j *cacheJanitor[MetadataT]) evict(maxCacheBytes int64) {
 
 		lock := j.cacheFns.getLock(candidate.key)
 		if lock.TryLock() {
+			// The scan above ran without the lock: the entry may have been used again, replaced by a
+			// fresh one or removed in the meantime, and is then no longer the candidate that was ranked.
+			if lastAccess, ok := j.cacheFns.lastAccess(candidate.key); !ok || !lastAccess.Equal(candidate.meta.LastAccess) {
+				lock.Unlock()
+				continue
+			}
+
 			slog.Info("Evicting cache entry", "key", candidate.key.Hex, "size", candidate.meta.Size, "last_access", candidate.meta.LastAccess)
 
 			if err := j.cacheFns.removeEntry(candidate.key); err != nil {
